@@ -53,10 +53,12 @@ def xml_cases(tier):
     for a in extra:
         for b in extra:
             yield {'kind': 'xml', 'a': a, 'b': b, 'opt': ['auto', 'on']}
-    if tier != 'quick':
-        for a in els:
-            for b in els:
-                yield {'kind': 'xml', 'a': a, 'b': b, 'opt': ['auto', 'on']}
+    if tier == 'quick':
+        # one tag, with and without text, 0-2 children: covers children / text appearing in or vanishing from an element
+        els = [e for e in els if e['tag'] == 'a' and not e.get('attrib') and e.get('text') in (None, 't')]
+    for a in els:
+        for b in els:
+            yield {'kind': 'xml', 'a': a, 'b': b, 'opt': ['auto', 'on']}
 
 
 def csv_cases(tier):
